@@ -573,6 +573,25 @@ impl<'a> Run<'a> {
             if fired {
                 self.trace.hit("fault_fired");
             }
+            // The fault fired during this operation, outside a destructor, and the library reported it. What the call
+            // had changed by then it had to mark first - unless the failing device call was the marking itself: the
+            // status byte written (a write at its offset), the seek to it, the query of the current position before it
+            // (a seek to where the cursor already is) or the seek back after it (from the byte behind the status byte).
+            if fired && !fired_before && !fired_in_drop && self.lib_err && self.cfg.wants(Aspect::Dirty) && self.cfg.dirty {
+                let st = self.geom.status_off();
+                let c = self.dev.with(|d| d.fired).unwrap();
+                let marking = match c.kind {
+                    crate::dev::Kind::Write => c.off == st,
+                    crate::dev::Kind::Seek => c.len == st || c.len == c.off || c.off == st + 1,
+                    _ => false,
+                };
+                if marking {
+                    self.trace.hit("fault_on_the_marking_itself");
+                } else {
+                    self.trace.hit("fault_reported_call_judged");
+                    self.check_dirty(op)?;
+                }
+            }
             // The fault fired during this operation, outside a destructor, and yet every library call of the operation
             // reported success: the call claims to have done its work, so it is judged like any other call.
             if fired && !fired_before && !fired_in_drop && !self.lib_err && matches!(ran, Ok(true)) && matches!(op, Op::Truncate { .. } | Op::Write { .. } | Op::Seek { .. } | Op::CreateFile { .. } | Op::CreateDir { .. } | Op::Remove { .. } | Op::Rename { .. }) {
